@@ -52,12 +52,13 @@ func NewUnpackInfo(dst string, header *tar.Header) (UnpackInfo, error) {
 	// and likely indicates a hand-crafted tar file, which we are not in
 	// the business of supporting here.
 	//
-	// The strategy is to Lstat each path  component from dst up to the
-	// immediate parent directory of the file name in the tarball, checking
-	// the mode on each to ensure we wouldn't be passing through any
-	// symlinks.
+	// The strategy is to Lstat each component of the cleaned path below dst
+	// up to the immediate parent directory of the entry, checking the mode on
+	// each to ensure we wouldn't be passing through any symlinks. (The raw
+	// name must not be used here: in "missing/../link/file" the walk would
+	// stop at "missing" although the file is created through "link".)
 	currentPath := dst // Start at the root of the unpacked tarball.
-	components := strings.Split(header.Name, "/")
+	components := strings.Split(rel, string(filepath.Separator))
 
 	for i := 0; i < len(components)-1; i++ {
 		currentPath = filepath.Join(currentPath, components[i])
